@@ -248,9 +248,20 @@ def run(cx):
               found='; '.join(show(cx.arg(s, 1))[:200] for s in rm))
         # the only skipped offset is the origin: the `continue` is guarded by x==0 && y==0 && z==0
         skip_ok = False
+        from vpa import guards as GG
         for s in rm:
             ok2, off = cx.all_paths(b, s.bb, lambda has: has('(eq 0 (itervar (rangeincl -1 1)))', False))
-            skip_ok = ok2
+            # ... and each of the THREE offsets can be the one that is non-zero: over all paths that reach the test, the non-zero literal is
+            # seen on three different loop variables (x == 0 && y == 0 && x == 0 would skip the two neighbours straight above and below)
+            nonzero_vars = set()
+            try:
+                for lits in GG.path_literal_sets(b, s.bb):
+                    for a, p in lits:
+                        if not p and match('(eq 0 (itervar (rangeincl -1 1)))', a) is not None:
+                            nonzero_vars.add(a[2] if a[1] == ('const', 0) else a[1])
+            except OverflowError:
+                nonzero_vars = set()
+            skip_ok = ok2 and len(nonzero_vars) == 3
         cx.ob('GUARD', 'clusters_from_sparse:skip-origin-only', skip_ok, 'a neighbour is tested unless all three offsets are zero', where=b.file)
         for s in b.calls('Vec::push'):
             d = cx.arg(s, 1)
